@@ -44,6 +44,7 @@ def dispatch (j : Json) : R Json := do
   | "xsd.parse" => xsdParse j
   | "xsd.serialize" => xsdSerialize j
   | "bind.call" => bindCall j
+  | "bind.denote" => bindDenote j
   | _ => throw s!"unknown op {op}"
 
 def handleLine (line : String) : String :=
